@@ -4,7 +4,7 @@ import json, os, subprocess
 VERIF = os.path.dirname(os.path.dirname(os.path.abspath(__file__)))
 
 HOOK_COMMITS = ["c3d3db1"]
-FIX_COMMITS = ["b26044a", "584cccc", "84460e9", "acfe447", "262d9d2", "8a3d93d", "1cdbd16"]
+FIX_COMMITS = ["b26044a", "584cccc", "84460e9", "acfe447", "262d9d2", "8a3d93d", "1cdbd16", "1eece05"]
 
 # what later rounds added to each check (entry points, inputs, clauses); appended to the level text
 ALSO = {
